@@ -146,7 +146,7 @@ func GenConfig(t *rapid.T, o GenOpts) sim.Config {
 	if len(o.TimeoutMs) > 0 {
 		cfg.OutgoingTxTimeoutMs = o.TimeoutMs[rapid.IntRange(0, len(o.TimeoutMs)-1).Draw(t, "txtimeout")]
 	} else {
-		cfg.OutgoingTxTimeoutMs = rapid.SampledFrom([]uint64{20000, 60000, 86400000 - 1}).Draw(t, "txtimeout")
+		cfg.OutgoingTxTimeoutMs = rapid.SampledFrom([]uint64{20000, 60000, 20001, 60001, 86400000 - 1}).Draw(t, "txtimeout")
 	}
 	if len(o.EthTimeout) > 0 {
 		cfg.TargetEthTxTimeout = o.EthTimeout[rapid.IntRange(0, len(o.EthTimeout)-1).Draw(t, "ethtimeout")]
